@@ -3,7 +3,7 @@ import copy
 import os
 import random
 import numpy as np
-from harness import core, gen, diskimg, oracle
+from harness import core, gen, genchk, diskimg, oracle
 from harness.props import c01, c02, c06, c11
 from harness.props import taste_common as tc
 
@@ -97,6 +97,31 @@ def gen_ops(rng, n):
     return [rng.choice(kinds) for _ in range(n)]
 
 
+def plotfile_of_checkpoint(c, gradp, reactions, floor):
+    """the abstract plotfile chk2plt must write from checkpoint c (theorem C17_tool: conv_pf), as a generator plotfile: fields,
+    levels, boxes, time, geometry, per box the oracle's expected data, the state subset's file layout under the Cell names"""
+    pf = gen.PF()
+    pf.ndims = 3
+    pf.fields = genchk.expected_fields(c, gradp, reactions)
+    pf.time = c.time
+    pf.step = c.step
+    pf.geo_low = [float(x) for x in c.geo_low]
+    pf.geo_high_given = [float(x) for x in c.geo_high()]
+    g0 = np.max(np.array([b[1] for b in c.levels[0]['boxes']]), axis=0) + 1
+    pf.n0 = [int(x) for x in g0]
+    pf.dx0 = [float(x) for x in (np.array(pf.geo_high_given) - np.array(pf.geo_low)) / g0]
+    pf.bf = 2
+    for lv, lev in enumerate(c.levels):
+        L = gen.Level()
+        L.boxes = [(tuple(lo), tuple(hi)) for lo, hi in lev['boxes']]
+        L.data = [np.asfortranarray(genchk.expected_box(c, lv, b, gradp, reactions, floor)) for b in range(len(lev['boxes']))]
+        L.files = [(name.replace('state', 'Cell'), list(members)) for name, members in lev['files']['state']]
+        pf.levels.append(L)
+    pf.meta = dict(geo='from-checkpoint', layouts=['state layout'] * len(c.levels), payload='random', nlevels=len(c.levels),
+                   checkpoint=c.meta)
+    return pf
+
+
 def run_case(seed):
     from amr_kitchen import PlotfileCooker
     from amr_kitchen.colander.colander import Colander
@@ -118,8 +143,30 @@ def run_case(seed):
     p0 = os.path.join(root, 'plt00000')
     img0 = diskimg.image_of(pf0)
     diskimg.write_image(img0, p0)
+    # chk2plt AS THE SOURCE of the chain (theorem C14_chain_from_checkpoint): the first plotfile is what chk2plt writes from a
+    # generated checkpoint; the chain goes on from it when the directory written IS the image of the abstract plotfile the
+    # conversion must give (exact for dyadic geometries; a printed bound that differs in its last digit ends the attempt)
+    rc = random.Random(seed * 7741 + 3)
+    from_chk = rc.random() < 0.15
+    if from_chk:
+        from amr_kitchen.chk2plt import chk2plt
+        ck = genchk.gen_checkpoint(rc, nlevels=rc.choice([1, 2]))
+        chkdir = os.path.join(root, 'chk00005')
+        genchk.write_checkpoint(ck, chkdir)
+        gradp, reactions, floor = rc.random() < 0.5, rc.random() < 0.4, rc.random() < 0.5
+        pconv = os.path.join(root, 'plt_from_chk')
+        resc = core.outcome(lambda: chk2plt(chkdir, species=list(ck.species), gradp=gradp, species_reactions=reactions,
+                                            floor_massfracs=floor, pltdir=pconv) and None)
+        ok = resc[0] == 'ok'
+        if ok:
+            pfc = plotfile_of_checkpoint(ck, gradp, reactions, floor)
+            imgc = diskimg.image_of(pfc)
+            ok = oracle.same_image(oracle.read_image(pconv), imgc) is None
+        count(f"chain started from a chk2plt conversion={'yes' if ok else 'attempted (the written directory is not digit for digit the expected image)'}")
+        if ok:
+            pf0, p0, img0 = pfc, pconv, imgc
     rl = random.Random(seed * 389 + 1)
-    if rl.random() < 0.2:
+    if rl.random() < 0.2 and not from_chk:
         # the first plotfile of the chain has level directories / binary files that are symbolic links
         pf0.meta['symlinks'] = gen.symlink_parts(p0, os.path.join(root, 'store'), rl)
     count(f"symbolic links inside the first input={'symlinks' in pf0.meta}")
@@ -507,13 +554,15 @@ def run(tier, seed):
                    'chef_spec) = the images written by the composed tool models after every hop, evaluated by the extracted code',
                    not any(v[0].get('kind') in ('spec-vs-model', 'spec', 'encode') for v in rep.violations))
     return rep.finish(
-        level_rule=("cases = generated 3D plotfile x operation sequence over {colander(vars, limit), chef(user recipe, kept), combine with a "
+        level_rule=("cases = generated 3D plotfile - or, in about one case out of seven, the plotfile chk2plt writes from a generated "
+                    "checkpoint (theorem C14_chain_from_checkpoint) - x operation sequence over {colander(vars, limit), chef(user recipe, kept), combine with a "
                     "fresh sibling on the current mesh, combine with an ancestor of the pipeline}: every sequence of length <= 2 over the "
                     "four kinds (enumerated through the seed), sampled sequences of length 3-4; after EVERY hop the output is parsed by "
                     "the independent reader and compared with the composed pure numpy operations (fields, boxes, values bit for bit, "
                     "min/max), validated by taste with and without box coordinates, and compared byte for byte with the composed models"),
-        trusted_base=core.COMMON_TRUSTED + ["chk2plt as a pipeline source is covered by C17 (its output is validated by taste there); "
-                                           "pipelines here start from generated plotfiles"],
+        trusted_base=core.COMMON_TRUSTED + ["chains that start from a chk2plt conversion go on only when the directory chk2plt wrote is, digit for "
+                                           "digit, the image of the abstract plotfile the conversion must give (dyadic geometries; a printed "
+                                           "box bound differing in its last digit ends that attempt - the conversion itself is checked by C17)"],
         assumptions=["float(repr(x)) == x (headers re-printed by every hop are compared by value)"],
         checker_cmd=pg['checker_cmd'])
 
